@@ -90,21 +90,38 @@ contract(DEP + 'Target.send_dep_res_recv_dep_req', 'C04', dict(self=Any(), dep_r
          requires=['dep_res is None or len(dep_res.data) <= self.miu',
                    'dep_res is None or (dep_res.pfb.pni >= 0 and dep_res.pfb.pni <= 3)',
                    'dep_res is None or (dep_res.did is None) == (self.did is None)'],
+         # ghost _g_rx: the information fields of every request this step has returned so far, in order (an ACK of a
+         # conforming Initiator carries none)
+         modifies={'self._g_rx': Bytes(0, None)},
+         ensures=['result is None or self._g_rx == old(self._g_rx) + bytes(result.data)',
+                  'result is not None or self._g_rx == old(self._g_rx)',
+                  'result is None or result.pfb.fmt != 4 or len(result.data) == 0'],
          raises=ERRS, returns=Opt(TREQ()))
 XQ = 'nfc.dep.Target.exchange'
 contract(DEP + 'Target.exchange', 'C04',
          dict(self=Obj(DEP + 'Target', miu=Int(1, 251), pni=Int(0, 3), did=Opt(Int(1, 14)), nad=None, cmd=None,
-                       rwt=Const(0.1)),
+                       rwt=Const(0.1), _g_rx=Const(b'')),
               send_data=Bytes(1, None), timeout=Const(1.0)),
          name='C04/Target.exchange', use=['C04/Target.transport'],
-         ensures=[('O-pni.range', 'result is None or (self.pni >= 0 and self.pni <= 3)')],
+         ensures=[('O-pni.range', 'result is None or (self.pni >= 0 and self.pni <= 3)'),
+                  # reassembly: what is returned is every information field received during this call, in order,
+                  # nothing dropped, doubled or reordered - for any number of chained requests
+                  ('O-reassembly', 'result is None or bytes(result) == self._g_rx')],
          raises=ERRS,
-         loops={(XQ, 'While', 0): LoopSpec(invariant=['self.pni >= 0 and self.pni <= 3'], decreases='len(send_data)',
-                                           havoc={'send_data': Bytes(0, None, mutable=True), 'self.pni': Int(),
-                                                  'req': TREQ()}),
-                (XQ, 'While', 1): LoopSpec(invariant=['self.pni >= 0 and self.pni <= 3'],
-                                           havoc={'self.pni': Int(), 'req': TREQ(),
-                                                  'recv_data': Bytes(0, None, mutable=True)})})
+         loops={(XQ, 'While', 0): LoopSpec(
+                    invariant=['self.pni >= 0 and self.pni <= 3',
+                               # while response chunks remain only ACKs came back; after the last chunk the next
+                               # request has arrived
+                               '(len(send_data) > 0 and self._g_rx == b"") or '
+                               '(len(send_data) == 0 and self._g_rx == bytes(req.data))'],
+                    decreases='len(send_data)',
+                    havoc={'send_data': Bytes(0, None, mutable=True), 'self.pni': Int(), 'req': TREQ(),
+                           'self._g_rx': Bytes(0, None)}),
+                (XQ, 'While', 1): LoopSpec(
+                    invariant=['self.pni >= 0 and self.pni <= 3',
+                               'bytes(recv_data) + bytes(req.data) == self._g_rx'],
+                    havoc={'self.pni': Int(), 'req': TREQ(), 'recv_data': Bytes(0, None, mutable=True),
+                           'self._g_rx': Bytes(0, None)})})
 contract(DEP + 'Initiator.exchange', 'C04', dict(self=INI(), send_data=Bytes(1, None), timeout=Const(1.0)),
          name='C04/sentinel.miu-plus-one', expect_fail=True,
          use=['C04/sentinel.transport'], raises=ERRS,
